@@ -356,6 +356,28 @@ void h_rg_collect_seq(void)
   check_inv("end");
 }
 
+/* end of input in sequential mode: the block left unfinished by the last piece is encoded (C04, C01) */
+void h_rg_collect_seq_flush(void)
+{
+  LOAD_INPUTS();
+  rg_mode = false; load_queue_state(); ultra = true; collect_token = true; rg_mode = true; rely_k = 0; lock_depth = 1;
+  struct work_blk *uw = XMALLOC(struct work_blk); struct encoder_state *uenc = malloc(sizeof *uenc); ASSUME(uenc != 0);
+  uenc->id = 77; uenc->fed = 5; uenc->encoded = false; uw->enc = uenc; uw->pos.major = 0; uw->pos.minor = 0; uw->next = uw->pos; uw->weight = 5;
+  ASSUME(g_collect >= 1 && g_iblk == 0);
+  unfinished_work = uw; eof = true;
+  ASSUME(size(coll_q) == 0);
+  ASSUME(can_collect_seq());
+  WITNESS("last_block_flushed");
+  n_init = n_collect = n_encode = 0; collect_mode = false;
+  unsigned t0 = size(trans_q);
+  do_collect_seq();
+  g_collect--;
+  PROP(lock_depth == 1 && collect_token, "task returns holding the lock, collector role handed back");
+  PROP(n_collect == 0 && n_init == 0 && n_encode == 1 && encode_enc == uenc && unfinished_work == 0, "at end of input the unfinished block is encoded as it is");
+  check_inv("end");
+  (void)t0;
+}
+
 void h_rg_write_complete(void)
 {
   LOAD_INPUTS();
